@@ -9,8 +9,9 @@ ASCII = [97, 98, 99, 100, 101, 102]
 MULTI = [97, 233, 8364, 119070, 98, 231]
 # how the bounds reach the engine: 0 literal, 1 variable (narrowest integer representation), 2 variable held as i128,
 # 3 variable held as u128 (i128 when negative), 4 through `'n'|int`, 5 through `n.0|int` (small n), 6 variable held as u64
-FORMS = [0, 1, 2, 3, 4, 5, 6]
-KINDS = [(0, ASCII), (0, MULTI), (1, [0, 1, 127, 128, 255, 7]), (2, None), (3, None), (4, None), (5, None)]
+FORMS = [0, 1, 2, 3, 4, 5, 6, 10, 11]   # +10: an omitted step is written with its colon (x[a:b:])
+# kinds 6..8: containers built in the template by concatenation: unsized lazy + list, list + unsized lazy, list|chain(lazy)
+KINDS = [(0, ASCII), (0, MULTI), (1, [0, 1, 127, 128, 255, 7]), (2, None), (3, None), (4, None), (5, None), (6, None), (7, None), (8, None)]
 
 
 def elems(kind_row, n):
@@ -21,7 +22,7 @@ def elems(kind_row, n):
 def case(kind_row, n, mode, st, sp, se, form):
     def t(o):
         return [0, 0] if o is None else [1, o]
-    if -2**127 in (st, sp, se) and form in (0, 4, 5):
+    if -2**127 in (st, sp, se) and form % 10 in (0, 4, 5):
         form = 1  # the literal -2^127 is C08's known finding (unary minus keeps +2^127); pass it as a variable here
     return [kind_row[0], mode] + t(st) + t(sp) + t(se) + [form, n] + elems(kind_row, n)
 
@@ -80,7 +81,7 @@ def gen(chk):
 
 
 def describe(c):
-    kind = ["str", "bytes", "tuple", "list", "lazy(sized)", "lazy(unsized)"][c[0]]
+    kind = ["str", "bytes", "tuple", "list", "lazy(sized)", "lazy(unsized)", "lazy + list", "list + lazy", "list|chain(lazy)"][c[0]]
     def o(t, v): return "" if t == 0 else str(v)
     n = c[9]
     SECOND = ["[::-1]", "[1:]", "[:-1]", "[::2]", "[-2:]", "[1:-1]", "[-1::-1]", "[0:2]"]
@@ -92,7 +93,7 @@ def describe(c):
             expr += "[%d]" % (c[1] - 18)
         elif c[1] >= 100:
             expr += SECOND[c[1] - 100]
-    return {"container": kind, "elements": c[10:10 + n], "expr": expr, "bounds_as": ["literals", "variables", "variables (i128)", "variables (u128)", "'n'|int", "n.0|int", "variables (u64)"][c[8]]}
+    return {"container": kind, "elements": c[10:10 + n], "expr": expr, "bounds_as": ["literals", "variables", "variables (i128)", "variables (u128)", "'n'|int", "n.0|int", "variables (u64)"][c[8] % 10] + (" (omitted step written as ':')" if c[8] >= 10 else "")}
 
 
 def main():
